@@ -264,6 +264,25 @@ pub fn c06(t: &dyn TypeOps, cx: &mut Cx) {
         }
         if i < 1 { cx.sample(json!({"type": cx.type_id, "value": format!("{:?}", want), "len": bytes.len(), "events": enc.events.len()})); }
     }
+    // a large value (payload past 64 KiB): the reference encoder's bytes are what both
+    // deserializers must read back (what an earlier build wrote stays readable)
+    if let Some(i) = first_scalable(t, n) {
+        if let Out::Ok((lb, sval)) = t.ser_scaled(i, 30_000) {
+            cx.evals += 1;
+            let enc = encode(&ty, &sval, t.type_name());
+            if !masked_eq(&lb, &enc.bytes, &enc.mask) { cx.violate("large-value-bytes-differ-from-model", json!({"value_index": i, "len": lb.len(), "model_len": enc.bytes.len()})); }
+            let mut big = Arena::new(enc.bytes.len() + 4096);
+            match t.full(&enc.bytes) {
+                Out::Ok((x, _)) if x == sval => {}
+                o => cx.violate(&format!("large-reference-stream-full-{}", if matches!(o, Out::Ok(_)) { "wrong-value".into() } else { o.class() }), json!({"value_index": i, "len": enc.bytes.len(), "observed": o.describe()})),
+            }
+            let placed = big.place(0, &enc.bytes);
+            match t.eps(placed) {
+                Out::Ok((x, _)) if x == sval => {}
+                o => cx.violate(&format!("large-reference-stream-eps-{}", if matches!(o, Out::Ok(_)) { "wrong-value".into() } else { o.class() }), json!({"value_index": i, "len": enc.bytes.len(), "observed": o.describe()})),
+            }
+        }
+    }
     c06_golden(t, cx, n, rth, rah);
 }
 
